@@ -486,7 +486,7 @@ class SigmaFieldReferenceModifier(SigmaValueModifier[SigmaString, SigmaFieldRefe
     def modify(self, val: SigmaString) -> SigmaFieldReference:
         if val.contains_special():
             raise SigmaValueError("Field references must not contain wildcards", source=self.source)
-        return SigmaFieldReference(val.to_plain())
+        return SigmaFieldReference(val.to_plain_regex())
 
 
 class SigmaExistsModifier(SigmaValueModifier[SigmaBool, SigmaExists]):
